@@ -24,21 +24,23 @@ Trace == ndJsonDeserialize("trace.ndjson")
 VARIABLES l, nbad
 tvars == <<l, nbad>>
 
-SRec(cs, cfin, tfin, trst) == [hs |-> cs.hs, tk |-> cs.tk, cfin |-> cfin, tfin |-> tfin, trst |-> trst]
+SRec(cs, x) == [hs |-> cs.hs, tk |-> cs.tk, cfin |-> x.cfin, tfin |-> x.tfin, trst |-> x.trst, tcl |-> x.tcl, crst |-> x.crst]
 ORecFinal(cs) ==
   [ csent |-> cs.csent, tsent |-> cs.tsent, tlog |-> cs.tlog, clog |-> cs.clog, mlog |-> cs.mlog, dials |-> cs.dials,
     acceptAt |-> cs.acceptAt, closeAt |-> cs.closeAt, cfinAt |-> cs.cfinAt, preDoneAt |-> cs.preDoneAt, addrDoneAt |-> cs.addrDoneAt, stalls |-> ToSet(cs.stallKinds), handlerDone |-> cs.handled, cancelled |-> cs.cancelled,
     lastSendAt |-> cs.lastSendAt, tfinPolite |-> cs.tfinPolite, drain |-> cs.drain, timeout |-> cs.timeoutMs,
-    wire |-> [cs |-> cs.wcs, tr |-> cs.wtr, ts |-> cs.wts, cr |-> cs.wcr] ]
+    afterClose |-> cs.afterClose,
+    wire |-> [cs |-> cs.wcs, tr |-> cs.wtr, ts |-> cs.wts, cr |-> cs.wcr, cpl |-> cs.wcpl] ]
 ORecSnap(cs, sn) ==
   [ csent |-> SubSeq(cs.csent, 1, sn.ncs), tsent |-> sn.nts,
     tlog |-> SubSeq(cs.tlog, 1, sn.tl), clog |-> SubSeq(cs.clog, 1, sn.cl), mlog |-> SubSeq(cs.mlog, 1, sn.ml),
     dials |-> sn.dl, acceptAt |-> IF sn.ml > 0 THEN cs.acceptAt ELSE -1, closeAt |-> sn.closeAt, cfinAt |-> sn.cfinAt,
     preDoneAt |-> sn.preDoneAt, addrDoneAt |-> sn.addrDoneAt, stalls |-> ToSet(sn.stallKinds), handlerDone |-> FALSE, cancelled |-> sn.cancelled, lastSendAt |-> sn.lastSendAt, tfinPolite |-> sn.tfinPolite, drain |-> "",
-    timeout |-> cs.timeoutMs, wire |-> [cs |-> sn.wcs, tr |-> sn.wtr, ts |-> sn.wts, cr |-> sn.wcr] ]
+    timeout |-> cs.timeoutMs, afterClose |-> sn.afterClose,
+    wire |-> [cs |-> sn.wcs, tr |-> sn.wtr, ts |-> sn.wts, cr |-> sn.wcr, cpl |-> sn.wcpl] ]
 
-FinalFailing(cs) == Failing(PropsFinal, SRec(cs, cs.cfin, cs.tfin, cs.trst), ORecFinal(cs))
-SnapFailing(cs, i) == LET sn == cs.snaps[i] IN Failing(PropsAny, SRec(cs, sn.cfin, sn.tfin, sn.trst), ORecSnap(cs, sn))
+FinalFailing(cs) == Failing(PropsFinal, SRec(cs, cs), ORecFinal(cs))
+SnapFailing(cs, i) == LET sn == cs.snaps[i] IN Failing(PropsAny, SRec(cs, sn), ORecSnap(cs, sn))
 BadSnaps(cs) == {i \in 1..Len(cs.snaps) : SnapFailing(cs, i) # {}}
 FirstBadSnap(cs) == IF BadSnaps(cs) = {} THEN 0 ELSE CHOOSE i \in BadSnaps(cs) : \A j \in BadSnaps(cs) : i <= j
 
